@@ -20,12 +20,14 @@ def build():
     return rdd2.derive_control_allocation()["f_alloc"]
 
 
-def replay_all(run, f, tvs):
-    """vectorised engine-A replay of a list of test vectors"""
+def replay_all(run, f, tvs, far=None):
+    """vectorised engine-A replay of a list of test vectors.  far: the thrust demand of every vector is multiplied by this
+    factor (Alloc!RangeLimited: only vectors whose demand is outside [0, 4 F_max] are passed, the expectation is unchanged)"""
     n = len(tvs)
     FM = np.array([tv["FM"] for tv in tvs], float)
     l = np.array([tv["geo"][0] / 16.0 for tv in tvs]); Cm = np.array([tv["geo"][1] / 16.0 for tv in tvs])
-    T = np.array([4.0 * tv["t"] for tv in tvs])
+    T = np.array([4.0 * tv["t"] for tv in tvs]) * (1.0 if far is None else far)
+    sfx = "" if far is None else "/far_thrust"
     m = np.array([tv["m"] for tv in tvs], float).T                      # 3 x n
     M = np.vstack([4 * l * m[0], 4 * l * m[1], 4 * Cm * m[2]])
     Fexp = np.array([tv["F"] for tv in tvs], float).T
@@ -52,16 +54,18 @@ def replay_all(run, f, tvs):
         d_f = fin & ((np.max(np.abs(fmo - Fmo), axis=0) > 1e-9) | (np.max(np.abs(ts - Fth), axis=0) > 1e-9))
 
         def data(k):
-            return {"tv": tvs[k], "Ct": Ct, "Fp_sum": Fp[:, k].tolist(), "omega": om[:, k].tolist()}
+            return {"tv": tvs[k], "Ct": Ct, "Fp_sum": Fp[:, k].tolist(), "omega": om[:, k].tolist(), "thrust_demand": float(T[k])}
         for k in np.nonzero(~fin)[0]:
-            run.violation(f"control_allocation/finite/{cells[k]}", "non-finite motor force or speed", data(k))
+            run.violation(f"control_allocation/finite/{cells[k]}{sfx}", "non-finite motor force or speed", data(k))
         for k in np.nonzero(bad_b)[0]:
-            run.violation(f"control_allocation/bounds/{cells[k]}", "motor force outside [0, F_max]", data(k))
+            run.violation(f"control_allocation/bounds/{cells[k]}{sfx}", "motor force outside [0, F_max]", data(k))
         for k in np.nonzero(bad_o)[0]:
-            run.violation(f"control_allocation/omega/{cells[k]}", "motor speed is not sqrt(F/Ct) >= 0", data(k))
+            run.violation(f"control_allocation/omega/{cells[k]}{sfx}", "motor speed is not sqrt(F/Ct) >= 0", data(k))
         for k in np.nonzero(bad_e)[0]:
-            run.violation(f"control_allocation/feasible_exact/{cells[k]}",
+            run.violation(f"control_allocation/feasible_exact/{cells[k]}{sfx}",
                           "moment-feasible demand: motor forces differ from (demanded moment + least thrust shift)", data(k))
+        if far is not None:
+            continue
         # implementation-shaped comparisons: informational only (never an alarm)
         for k in np.nonzero(d_impl)[0]:
             run.spec_drift(f"control_allocation/impl_shape/{cells[k]}", "code differs from the implementation-shaped model Impl")
@@ -99,6 +103,14 @@ def main():
             run.sample({k: tv[k] for k in ("FM", "geo", "t", "m", "kind", "F", "cell")})
         tvs.append(tv)
     replay_all(run, f, tvs)
+    # "thrust demands far above 4 F_max" / far below zero: the demand is range-limited first, so the result does not change
+    outside = [tv for tv in tvs if tv["t"] >= tv["FM"] or tv["t"] < 0]
+    outside = outside[::max(1, len(outside) // (4000 if tier == "thorough" else 800))]
+    if len(outside) < 50:
+        raise MachineryError(f"vacuous coverage: only {len(outside)} vectors with a thrust demand outside [0, 4 F_max]")
+    for far in (1e6, 1e15, 4e17, 1e30, 1e300):
+        replay_all(run, f, outside, far=far)
+    run.count("far_thrust_vectors", len(outside) * 5)
     need = {"C1>0&C2>0", "C1>0&C2<0", "C1<0&C2>0", "C1<0&C2<0", "C1=0&C2=0", "C1=0&C2>0", "C1>0&C2=0"}
     seen = {c for c, _ in cells}
     if not need <= seen:
